@@ -815,6 +815,10 @@ func poolConf(tier string) (p pool) {
 			confSc("conf+failover", f, scriptConfFailover(), k, defaultFaults...),
 		)
 	}
+	// the last voter is asked to remove itself: the application cancels the committed change
+	for _, f := range []feat{syncF, asyncF} {
+		p.dd = append(p.dd, confSc("remove-last-voter", f, seq(camp(1), conf(1, mRemove3), prop(1), conf(1, mV1Remove2), prop(1), conf(1, mRemove1), prop(1), conf(1, mAddVoter4), prop(1)), k, defaultFaults...))
+	}
 	// validation of conf-change proposals disabled; the application itself proposes one change at a time
 	p.dd = append(p.dd, confSc("simple-conf", feat{noccv: true}, scriptSimpleConf(), k, defaultFaults...),
 		confSc("joint", feat{noccv: true, async: true}, scriptJoint(), k, defaultFaults...))
